@@ -75,4 +75,15 @@ MUTANTS = {
                                  "        if next_scheduled is not None:")],
         "goodbye_keeps_schedule": [("_services/browser.py", "                        self.query_scheduler.cancel_ptr_refresh(pointer)\n", "")],
     },
+    "C03": {
+        "question_name_not_lowered": [("_handlers/query_handler.py", "        question_lower_name = name.lower()", "        question_lower_name = name")],
+        "suppress_ge": [("_dns.py", "        return other.ttl > (record.ttl / 2)", "        return other.ttl >= (record.ttl / 2)")],
+        "memo_not_cleared_on_add": [("_services/registry.py", "        info.async_clear_cache()\n", "")],
+        "additional_repeats_answer": [("_handlers/answers.py", "            if additional not in sending:", "            if True:")],
+        "d1_reverted": [("_services/registry.py", "            if not self.types[type_key]:\n                del self.types[type_key]\n", "")],
+        "update_keeps_old": [("_services/registry.py", "        self._remove([info])\n        self._add(info)", "        if info.key not in self._services:\n            self._add(info)")],
+        "txt_answers_srv_too": [("_handlers/query_handler.py", "                if type_ in (_TYPE_TXT, _TYPE_ANY):", "                if type_ in (_TYPE_TXT, _TYPE_ANY, _TYPE_SRV):")],
+        "nsec_never": [("_handlers/query_handler.py", "            elif type_ in missing_types:", "            elif False:")],
+        "ptr_ttl_host": [("_services/info.py", "            override_ttl if override_ttl is not None else self.other_ttl,\n            self._name,\n            0.0,", "            override_ttl if override_ttl is not None else self.host_ttl,\n            self._name,\n            0.0,")],
+    },
 }
